@@ -48,6 +48,8 @@ PROPS = {
             'ghost-clock postcondition + primitive contracts (CBMC); enumerated bounded checks of mem_prim_set*'),
     'C19': ('model_checking', 'Bounded n <= 6: result against reference; data independence by self-composition over mechanically inserted branch events (goto-instrument --branch).',
             'self-composition on branch traces + reference comparison (bounded CBMC)'),
+    'C20': ('model_checking', 'Bounded: every subset of the internal allocations fails (cbmc --malloc-may-fail --malloc-fail-null), memory-leak check, NULL-dereference obligations and dest-cleared-on-failure for the %ls / %L paths of the printf engine and the four wide printf no-space probes; wcsnorm_s / wcsicmp_s allocations not reached.',
+            'allocation-failure enumeration by the verifier malloc model + leak obligation (bounded CBMC)'),
     'C08': ('proof', 'Postcondition "zero is absorbing behind the terminator up to dmax" with arbitrary prior contents, both sides of the 0x20 memset switch reachable (canaries).',
             'ensures clauses with ghost indices under loop contracts; bounded harnesses'),
 }
